@@ -1,5 +1,161 @@
-import Mkdb.Spec.Tables
-import Mkdb.Spec.Shape
-import Mkdb.Model.Engine
-namespace Mkdb.Store
-end Mkdb.Store
+import Mkdb.Props.C11
+/-!
+# C01 — table contents always equal what the statement history implies
+
+Property theorems only, about the levels model `Mkdb.Tree` (see C11 for how it is tied to the
+code).  The "plain in-memory model" of one table is a list of rows in insertion order, each with
+its row id, tombstone flag and value (`specStep`); the theorems say that what a scan of the tree
+sees is that list, whatever page splits happened on the way: nothing lost, duplicated,
+resurrected, and row ids strictly increasing.  Quantifier: every history of any length.
+Several tables sharing one file, and the catalog, are `Mkdb.Tree.Forest` (C01_forest_* below).
+
+Not covered by a theorem (partial): the row codec inside the cells is C08; that a statement is the
+sequence of tree operations assumed here (row ids from the shared counter, one operation per
+selected row, catalog rows for CREATE TABLE) is the heap model `Mkdb.Store` / `Mkdb.Engine`,
+compared with the implementation statement by statement, page by page.
+-/
+namespace Mkdb.Tree
+open Mkdb.Page Mkdb.Generated
+
+/-- the plain model of one table: rows in insertion order -/
+def specStep (rows : List LeafCell) (op : TOp) (accepted : Bool) : List LeafCell :=
+  match op with
+  | .ins k _ v => if accepted then rows ++ [⟨k, false, v⟩] else rows
+  | .upd k _ v => rows.map fun c => if c.key == k then { c with val := v } else c
+  | .del k _ => rows.map fun c => if c.key == k then { c with deleted := true } else c
+
+/-- did the tree accept the operation (an insert can be refused: duplicate key, oversized row) -/
+def accepted (s : Levels × Nat) : TOp → Bool
+  | .ins k lsn v => match insertAppend s.1 k lsn v s.2 with | .ok _ => true | .error _ => false
+  | _ => true
+
+/-- **C01.step**: one operation changes what a scan sees exactly as it changes the plain list. -/
+theorem C01_step (s : Levels × Nat) (op : TOp) :
+    cells (applyOp s op).1 = specStep (cells s.1) op (accepted s op) := by
+  cases op with
+  | ins k lsn v =>
+    cases hr : insertAppend s.1 k lsn v s.2 with
+    | ok r =>
+      simp only [applyOp, accepted, specStep, hr]
+      simpa using cells_insertAppend s.1 r.1 k lsn s.2 r.2 v hr
+    | error e => simp [applyOp, accepted, specStep, hr]
+  | upd k lsn v => exact cells_setVal s.1 k lsn v
+  | del k lsn => exact cells_setDeleted s.1 k lsn
+
+/-- the plain model run over a history, given which inserts were accepted -/
+def specRun (s : Levels × Nat) (rows : List LeafCell) : List TOp → List LeafCell
+  | [] => rows
+  | op :: rest => specRun (applyOp s op) (specStep rows op (accepted s op)) rest
+
+/-- **C01.history**: after any history the scan order view of the tree is the plain list the history
+implies - no row lost, duplicated or reordered by any pattern of page splits. -/
+theorem C01_history (s : Levels × Nat) (ops : List TOp) :
+    cells (runOps s ops).1 = specRun s (cells s.1) ops := by
+  induction ops generalizing s with
+  | nil => rfl
+  | cons op rest ih =>
+    simp only [runOps, List.foldl_cons, specRun]
+    have := ih (applyOp s op)
+    simp only [runOps] at this
+    rw [this, C01_step]
+
+/-- **C01.ids_strictly_increasing**: the row ids a scan returns are strictly increasing, hence unique. -/
+theorem C01_ids_strictly_increasing (off nf : Nat) (h : off < nf) (ops : List TOp) :
+    (keys (runOps (emptyTree off, nf) ops).1).Pairwise (· < ·) :=
+  (C11_every_history off nf h ops).asc
+
+/-- **C01.select_sees_live_rows**: what `scanRight` hands to SELECT is the plain list without the
+tombstoned rows. -/
+theorem C01_select_sees_live_rows (s : Levels × Nat) (ops : List TOp) :
+    live (runOps s ops).1 = (specRun s (cells s.1) ops).filter (fun c => !c.deleted) := by
+  unfold live; rw [C01_history]
+
+theorem specStep_deleted_stays (rows : List LeafCell) (op : TOp) (a : Bool) (k : Nat)
+    (hnew : ∀ key lsn v, op = .ins key lsn v → a = true → key ≠ k)
+    (h : ∀ c ∈ rows, c.key = k → c.deleted = true) :
+    ∀ c ∈ specStep rows op a, c.key = k → c.deleted = true := by
+  intro c hc hk
+  cases op with
+  | ins key lsn v =>
+    simp only [specStep] at hc
+    split at hc
+    · rename_i ha
+      rcases List.mem_append.mp hc with hc | hc
+      · exact h c hc hk
+      · simp only [List.mem_singleton] at hc
+        subst hc
+        exact absurd hk (hnew key lsn v rfl ha)
+    · exact h c hc hk
+  | upd key lsn v =>
+    simp only [specStep, List.mem_map] at hc
+    obtain ⟨c0, hc0, rfl⟩ := hc
+    by_cases hkey : (c0.key == key) = true
+    · simp only [hkey, if_true] at hk ⊢
+      exact h c0 hc0 hk
+    · simp only [hkey] at hk ⊢
+      exact h c0 hc0 hk
+  | del key lsn =>
+    simp only [specStep, List.mem_map] at hc
+    obtain ⟨c0, hc0, rfl⟩ := hc
+    split
+    · rfl
+    · rename_i hkey; simp only [hkey] at hk; exact h c0 hc0 hk
+
+/-- an accepted insert carries a key that is not in the tree -/
+theorem accepted_key_fresh (s : Levels × Nat) (nf : Nat) (hinv : Inv s.1 nf) (hs : s.2 = nf) (key lsn : Nat) (v : Bytes)
+    (ha : accepted s (.ins key lsn v) = true) : ∀ c ∈ cells s.1, c.key ≠ key := by
+  simp only [accepted] at ha
+  split at ha
+  · rename_i r hr
+    have hinv' := insertAppend_inv s.1 r.1 key lsn s.2 r.2 v (hs ▸ hinv) hr
+    have hc := cells_insertAppend s.1 r.1 key lsn s.2 r.2 v hr
+    have hasc := hinv'.asc
+    unfold KeysAsc keys at hasc
+    rw [hc, List.map_append, List.pairwise_append] at hasc
+    intro c hcm heq
+    have := hasc.2.2 c.key (List.mem_map_of_mem hcm) key (by simp)
+    omega
+  · cases ha
+
+/-- **C01.no_resurrection**: a deleted row stays deleted through every later operation - no later
+insert, value change, split or deletion brings it back. -/
+theorem C01_no_resurrection (s : Levels × Nat) (hinv : Inv s.1 s.2) (k : Nat)
+    (h : ∀ c ∈ cells s.1, c.key = k → c.deleted = true) (hk : ∃ c ∈ cells s.1, c.key = k) (ops : List TOp) :
+    ∀ c ∈ cells (runOps s ops).1, c.key = k → c.deleted = true := by
+  induction ops generalizing s with
+  | nil => exact h
+  | cons op rest ih =>
+    simp only [runOps, List.foldl_cons]
+    have hstep : cells (applyOp s op).1 = specStep (cells s.1) op (accepted s op) := C01_step s op
+    obtain ⟨c0, hc0, hc0k⟩ := hk
+    have hnew : ∀ key lsn v, op = .ins key lsn v → accepted s op = true → key ≠ k := by
+      intro key lsn v hop ha heq
+      subst hop
+      exact accepted_key_fresh s s.2 hinv rfl key lsn v ha c0 hc0 (hc0k.trans heq.symm)
+    have h' : ∀ c ∈ cells (applyOp s op).1, c.key = k → c.deleted = true := by
+      rw [hstep]; exact specStep_deleted_stays _ op _ k hnew h
+    have hk' : ∃ c ∈ cells (applyOp s op).1, c.key = k := by
+      rw [hstep]
+      cases op with
+      | ins key lsn v =>
+        simp only [specStep]
+        split
+        · exact ⟨c0, List.mem_append_left _ hc0, hc0k⟩
+        · exact ⟨c0, hc0, hc0k⟩
+      | upd key lsn v =>
+        refine ⟨_, List.mem_map_of_mem hc0, ?_⟩
+        split <;> simpa using hc0k
+      | del key lsn =>
+        refine ⟨_, List.mem_map_of_mem hc0, ?_⟩
+        split <;> simpa using hc0k
+    have := ih (applyOp s op) (applyOp_inv s op hinv) h' hk'
+    simpa [runOps] using this
+
+/-- non-vacuity: insert 12 rows (one leaf split and a root), delete row 3, change row 5, insert one more -/
+example :
+    let ops : List TOp := (List.range' 1 12).map (fun k => TOp.ins k k [k.toUInt8]) ++ [.del 3 20, .upd 5 21 [9], .ins 13 22 []]
+    (live (runOps (emptyTree 4096, 8192) ops).1).map (fun c => (c.key, c.val)) =
+      [(1, [1]), (2, [2]), (4, [4]), (5, [9]), (6, [6]), (7, [7]), (8, [8]), (9, [9]), (10, [10]), (11, [11]), (12, [12]), (13, [])] := by
+  decide
+
+end Mkdb.Tree
